@@ -1227,3 +1227,29 @@ func TestPrefixTwinFirst(t *testing.T) {
 		}
 	}
 }
+
+// TestEveryForgeryEveryAlgorithm: every signature-level corruption kind on a delegation and an invocation of EVERY key
+// algorithm, with the first alternatives of each kind - what the random campaign reaches only when it happens to draw
+// the one algorithm together with the one kind (a forgery that works against one curve only).
+func TestEveryForgeryEveryAlgorithm(t *testing.T) {
+	seen := map[string]bool{}
+	n := 0
+	for _, d := range fixedTokens() {
+		for _, kind := range sigKinds {
+			key := fmt.Sprint(d.Kind(), d.Issuer().Alg, kind)
+			if seen[key] {
+				continue
+			}
+			seen[key] = true
+			alts := 6
+			if !h.Thorough() && d.Issuer().Alg == keys.RSA {
+				alts = 2
+			}
+			for alt := 0; alt < alts; alt++ {
+				prop.One(t, Case{Tok: d, C: Corruption{Kind: kind, Alt: alt}})
+				n++
+			}
+		}
+	}
+	P.SetExtra("forgery_matrix_cases", n)
+}
